@@ -540,3 +540,59 @@ def generate_triples(rep, sites, classify, write=True):
         ]
         (GEN_DIR / "Triples.lean").write_text("\n".join(lines) + "\n")
     return dict(pairs=pairs, classes=classes, loc_only=loc_only, from_distr_sites=from_distr, closures=closures)
+
+
+def generate_dispatch(sites, modules, write=True):
+    """Generated/Dispatch.lean: which {family}/{kind}_{process} modules exist, which partonic-channel
+    classes each provides and what each order's constructor does (read from the live classes), the
+    TMC map keys and the observable-name tables."""
+    from yadism import observable_name as on
+    from yadism.esf import tmc
+
+    table = {}
+    for s in sites:
+        if s["fam"] == "split" or s["order"] is None:
+            continue
+        kind, proc = s["module"].rsplit("_", 1)
+        key = (s["fam"], kind, proc)
+        cls = table.setdefault(key, {}).setdefault(s["cls"], {})
+        st = "rsl" if s["status"] == "rsl" else ("none" if s["status"] == "none" else "err")
+        # an order is as bad as its worst nf (heavy nf=6 is unreachable and not instantiated)
+        prev = cls.get(s["order"])
+        rank = {"none": 0, "rsl": 1, "err": 2}
+        if prev is None or rank[st] > rank[prev]:
+            cls[s["order"]] = st
+    for (fam, mod), status in modules.items():
+        if mod.endswith("_nc") or mod.endswith("_cc"):
+            kind, proc = mod.rsplit("_", 1)
+            if status != "ok":
+                table[(fam, kind, proc)] = "import-error"
+            else:
+                table.setdefault((fam, kind, proc), {})
+    if write:
+        def row(key, v):
+            fam, kind, proc = key
+            if v == "import-error":
+                return f'  (("{fam}", "{kind}", "{proc}"), none)'
+            cl = ", ".join(f'("{c}", [{", ".join(chr(34) + o.get(i, "none") + chr(34) for i in range(4))}])' for c, o in sorted(v.items()))
+            return f'  (("{fam}", "{kind}", "{proc}"), some [{cl}])'
+        lines = [
+            "/- GENERATED by harness/translate.py (read from the live modules/classes): do not edit. -/",
+            "namespace Yadism.Gen",
+            "",
+            "/-- `(family, kind, process) ↦ none` (module exists but fails to import) or the classes it",
+            "provides with, per order 0..3, `rsl` / `none` / `err` (constructor raises) -/",
+            "def moduleTable : List ((String × String × String) × Option (List (String × List String))) := [",
+            ",\n".join(row(k, v) for k, v in sorted(table.items())),
+            "]",
+            "",
+            f"def tmcKinds : List String := [{', '.join(chr(34) + k + chr(34) for k in tmc.ESFTMCmap)}]",
+            f"def sfKinds : List String := [{', '.join(chr(34) + k + chr(34) for k in on.sfs)}]",
+            f"def xsKinds : List String := [{', '.join(chr(34) + k + chr(34) for k in on.xs)}]",
+            f"def allKinds : List String := [{', '.join(chr(34) + k + chr(34) for k in on.kinds)}]",
+            f"def allFlavors : List String := [{', '.join(chr(34) + k + chr(34) for k in on.flavors)}]",
+            "",
+            "end Yadism.Gen",
+        ]
+        (GEN_DIR / "Dispatch.lean").write_text("\n".join(lines) + "\n")
+    return table
